@@ -188,6 +188,12 @@ def twoAdicValuationInt (n : Int) : Nat :=
 /-- the composition used by the signers: `two_adic_valuation(ibz_get(&x))` -/
 def twoAdicValuationOfIbz (x : Int) : Nat := twoAdicValuationInt (toInt32 (ibzGet x))
 
+/-- `ibz_two_adic(a)` (intbig.c, added by fix b69f2a3): `mpz_scan1(a, 0)` = index of the lowest set bit of |a|
+    (two's complement of a negative number has the same lowest set bit), and 0 for a = 0.
+    (The C casts the bit index to `int`; an index ≥ 2^31 needs a 256 MiB operand and is not modelled.) -/
+def ibzTwoAdic (a : Int) : Nat :=
+  if a = 0 then 0 else trailingZeros a.natAbs a.natAbs
+
 /-- little-endian 64-bit limbs of a natural number (`mpz_limbs_read`, `mpz_size` many) -/
 def limbsAux : Nat → Nat → List Nat
   | 0, _ => []
